@@ -1,5 +1,5 @@
 // C15: vertex-order contracts of the tetrahedral kernel (read-only queries) against a brute-force reference built from the
-// stored halfface definitions.   shard params: 0 = base (c15_common.h), 1 = pre-operation (0 none, 1.. see pre_op), 2 = part of the entity range (see run_order)
+// stored halfface definitions.   shard params: 0 = base (c15_common.h), 1 = pre-operation (0 none, 1.. see pre_op), 2,3 = part p of N of the entity range (see run_order)
 //   centre cell / halfface enumerated (constant: a free symbolic centre gives symbolic loop bounds inside halfface_vertices(),
 //   measured: no verdict in 300 s on one tet); vertex and halfedge ARGUMENTS free symbolic
 #include "c15_order_checks.h"
@@ -28,9 +28,10 @@ static void run_order() {
   check_shape(m, s);
   if (!R_ok) return;
   const int tv = probe_below(s.nV), the = probe_below(2 * s.nE);
-  const unsigned part = v_param(2);            // 0: everything; 1: all cells + halffaces of the first half of the faces; 2: the other halffaces
-  const int lo = (part == 2) ? (s.nF / 2) * 2 : 0, hi = (part == 1) ? (s.nF / 2) * 2 : 2 * s.nF;
-  if (part != 2) for (int c = 0; c < s.nC; ++c) if (r_live_tet(c)) check_cell(m, c, tv);
+  // params 2,3: part p of N (N = 0: everything).  Cells go with part 0, the halffaces are split into N contiguous ranges.
+  const unsigned part = v_param(2), nparts = v_param(3) ? v_param(3) : 1;
+  const int nh = 2 * s.nF, lo = (int)((unsigned)nh * part / nparts), hi = (int)((unsigned)nh * (part + 1) / nparts);
+  if (part == 0) for (int c = 0; c < s.nC; ++c) if (r_live_tet(c)) check_cell(m, c, tv);
   for (int h = lo; h < hi; ++h) if (!s.fdel[h >> 1]) check_halfface(m, h, tv, the);
   v_witness("C15 order end");
 }
